@@ -24,7 +24,7 @@ COMPONENTS = {"real": ["particle.c (add, remove paths, lookup table)", "tools.c 
               "simulated": ["heap placement policy (hostile allocator with audit after every op)", "wall clock"]}
 ASSUMPTIONS = ["documented semantics only: sorted removal shifts, unsorted removal moves the last particle into the hole, hybrid integrators force sorted removal, "
                "with a tree unsorted removal is deferred until the next tree update (order then unspecified), N_active decrements when a sorted removal hits an index below it"]
-PROBES = ["array_filled_to_capacity", "realloc_moved_particles", "stale_lookup_after_remove", "duplicate_hash_lookup", "zero_hash_lookup", "invalid_index_refused", "unknown_hash_refused",
+PROBES = ["array_filled_to_capacity", "refused_add_outside_box", "realloc_moved_particles", "stale_lookup_after_remove", "duplicate_hash_lookup", "zero_hash_lookup", "invalid_index_refused", "unknown_hash_refused",
           "removal_refused_variational", "tree_deferred_removal", "hybrid_removal_after_steps", "remove_all_then_add", "last_particle_removed"]
 
 MODES = ["plain", "plain", "tree", "mercurius", "trace", "var", "nactive", "megno"]
@@ -40,7 +40,7 @@ def generate(rng, tier, index):
     ops = []
     for i in range(nops):
         k = o.weighted([("add", 22), ("add_many", 1.2), ("remove", 22), ("remove_hash", 12), ("set_hash", 8), ("lookup", 16), ("remove_all", 2.5),
-                        ("set_nactive", 3), ("py_forms", 6), ("steps", 5 if mode in ("mercurius", "trace", "tree", "plain") else 1), ("update_tree", 4 if mode == "tree" else 0),
+                        ("set_nactive", 3), ("py_forms", 6), ("steps", 5 if mode in ("mercurius", "trace", "tree", "plain") else 1), ("update_tree", 4 if mode == "tree" else 0), ("add_outside", 3 if mode == "tree" else 0),
                         ("py_remove", 6)])
         if k == "add":
             ops.append(dict(op="add", hash=o.weighted([("unique", 6), ("dup", 2), ("zero", 2), ("string", 2)]), pick=o.randint(0, 500)))
@@ -481,6 +481,23 @@ def execute(case, ctx):
                     nact[0] = -1
                     had_removal = True
                     L.verif_free_ap_take(ctypes.byref(ctypes.c_uint32()))
+                elif kind == "add_outside":
+                    # an invalid request: with a tree in use a particle outside the box cannot be added; the call must fail and change nothing
+                    if tree and not sim.N_var:
+                        n_before = sim.N
+                        next_hash[0] += 1
+                        raised = False
+                        try:
+                            sim.add(m=1e-9, x=rr.choice([1e3, -1e3]), y=rr.uniform(-40, 40), z=0.0, r=987654.0, hash=next_hash[0])
+                        except RuntimeError:
+                            raised = True
+                        probe("refused_add_outside_box")
+                        if not raised:
+                            viol("add", "adding a particle outside the box of a tree simulation did not fail", "N %d -> %d" % (n_before, sim.N), key="add:invalid-request-succeeded")
+                            break
+                        if sim.N != n_before or L.reb_simulation_particle_by_hash(ctypes.byref(sim), ctypes.c_uint32(next_hash[0])):
+                            viol("add", "failed add changed the simulation", "N %d -> %d, lookup of the refused hash %s" % (n_before, sim.N, "finds a particle" if L.reb_simulation_particle_by_hash(ctypes.byref(sim), ctypes.c_uint32(next_hash[0])) else "fails"), key="add:failed-request-changed-state")
+                            break
                 elif kind == "set_nactive":
                     if sim.N_var:
                         continue
